@@ -110,10 +110,18 @@ func corrC11(out string, seed uint64, tier string, replay string) *report {
 					rep.fail(s, "prefix span = its text", fmt.Sprint(t.Prefix.Pos(), t.Prefix.End()), "prefix span wrong")
 				}
 			}
+			// the offset at which the next node's text must start: nodes are laid out in order, one delimiter apart
+			at := 0
+			if t.Prefix != nil {
+				at = len(t.Prefix.Text)
+			}
 			span := func(v *parse.ValueNode) {
 				if int(v.Pos()) < 0 || int(v.End()) > len(s) || v.Pos() > v.End() || s[v.Pos():v.End()] != v.Value {
 					rep.fail(s, "node span is the substring holding its text", fmt.Sprintf("%q [%d,%d)", v.Value, v.Pos(), v.End()), "span wrong")
+				} else if int(v.Pos()) != at || int(v.End()) != at+len(v.Value) {
+					rep.fail(s, fmt.Sprintf("node %q spans [%d,%d): the place of its text in the input", v.Value, at, at+len(v.Value)), fmt.Sprintf("[%d,%d)", v.Pos(), v.End()), "span is not where the node's text stands (empty texts included)")
 				}
+				at += len(v.Value) + 1
 			}
 			for i, f := range t.Fragments {
 				if i > 0 {
@@ -132,6 +140,8 @@ func corrC11(out string, seed uint64, tier string, replay string) *report {
 				case *parse.GroupNode:
 					if len(n.Values) == 0 {
 						rep.fail(s, "non-empty group", "empty group", "empty group")
+					} else if gp, ge := int(n.Pos()), int(n.End()); gp != at || ge < gp || ge > len(s) {
+						rep.fail(s, fmt.Sprintf("group starts at %d", at), fmt.Sprintf("[%d,%d)", gp, ge), "group span is not where its text stands")
 					}
 					for j, v := range n.Values {
 						if j > 0 {
